@@ -226,6 +226,10 @@ func (s *State) clone() *State {
 	n := &State{prog: s.prog, ex: s.ex, objCtr: s.objCtr, pcSent: 0, steps: 0, atomic: s.atomic, nowCtr: s.nowCtr, lastNow: s.lastNow, firstNow: s.firstNow,
 		preempts: s.preempts, begun: s.begun, ticks: s.ticks, firstRange: s.firstRange}
 	n.schedPts = append([]schedPt{}, s.schedPts...)
+	n.sleep = map[int]bool{}
+	for k := range s.sleep {
+		n.sleep[k] = true
+	}
 	n.pc = append([]*Term{}, s.pc...)
 	n.vars = append([]*Term{}, s.vars...)
 	n.apps = append([]*Term{}, s.apps...)
